@@ -9,7 +9,12 @@ declare -A MAP=(
  [B4_order_rename_local]="C17" [B5_schema_rename_local]="C15" [B6_tester_reorder]="C20" [B7_journal_local]="C13 C08 C05 C09"
  [B8_conn_extract_helper]="C05 C14 C02" [B9_is_finished_tuple]="C17 C16" [B10_is_number_regex]="C10"
  [B11_resend_rename_locals]="C06 C04 C09 C11 C12 C14 C05" [B12_resend_reorder]="C06 C04 C09 C12"
- [B13_dispatcher_rename_locals]="C04 C09 C11 C12" [B14_send_msg_rename_locals]="C05 C02 C11 C14")
+ [B13_dispatcher_rename_locals]="C04 C09 C11 C12" [B14_send_msg_rename_locals]="C05 C02 C11 C14"
+ # A_*: refactorings written by independent sub-agents (prompt: strictly behaviour-preserving clean-up commits)
+ [A_conn_1]="C06 C04 C09 C12 C14 C05" [A_conn_2]="C11 C04 C09 C12" [A_conn_3]="C05 C11 C02 C14 C09" [A_conn_4]="C11 C09 C12 C14"
+ [A_codec_1]="C02 C05 C01 C14" [A_codec_2]="C10 C01 C03" [A_codec_3]="C18 C02 C04" [A_codec_4]="C18"
+ [A_journal_1]="C13 C08 C09" [A_journal_2]="C13 C08 C09 C06" [A_journal_3]="C13 C08 C05 C06" [A_journal_4]="C04 C11 C09"
+ [A_proto_1]="C16 C17" [A_proto_2]="C17 C20" [A_proto_3]="C15" [A_proto_4]="C20")
 rc=0
 for d in "${!MAP[@]}"; do
   case "$d" in *"${1:-}"*) ;; *) continue;; esac
